@@ -38,14 +38,17 @@ def finding_class(units, ans):
         if not m:
             return "panic:?"
         # the call site, identified by its source text (stable when lines move)
+        rel = m.group(1)
+        if rel.startswith(REPO + "/"):
+            rel = rel[len(REPO) + 1:]      # a scratch copy (tools/try_mutant_wt.sh) reports absolute paths
         try:
-            lines = open(os.path.join(REPO, m.group(1))).read().split("\n")
+            lines = open(os.path.join(REPO, rel)).read().split("\n")
             text = lines[int(m.group(2)) - 1].strip()
             if text.endswith("(") or text.endswith("{"):
                 text += " " + lines[int(m.group(2))].strip()
         except Exception:
             text = "line %s" % m.group(2)
-        return "panic:%s:%s" % (m.group(1), text)
+        return "panic:%s:%s" % (rel, text)
     if ans.startswith("crash"):
         if len(units) > 1:
             seen = set()
